@@ -266,14 +266,29 @@ func c9sess(a []string) string {
 			tps = append(tps, p)
 		}
 		s0, u0, c0 := w.ledger.counts(sid)
+		live0 := w.ledger.inner.VerifLiveSubscriptions(sid)
 		ctx, cancel := context.WithCancel(context.Background())
 		ret := make(chan error, 1)
-		go func() { ret <- w.coord.Execute(ctx, tps, make(chan interface{}, 8)) }()
+		returned := make(chan struct{})
+		go func() {
+			err := w.coord.Execute(ctx, tps, make(chan interface{}, 8))
+			ret <- err
+			close(returned)
+		}()
+		isReturned := func() bool {
+			select {
+			case <-returned:
+				return true
+			default:
+				return false
+			}
+		}
 		waiting := 3
 		if role == "c" {
 			waiting = 2
 		}
-		subscribed := func() bool { return w.ledger.inner.VerifLiveSubscriptions(sid) >= waiting }
+		// (a session that has already returned — refused, or failed early — is not waited for)
+		subscribed := func() bool { return isReturned() || w.ledger.inner.VerifLiveSubscriptions(sid) >= live0+waiting }
 		entered := func() bool {
 			// drive the session into Run for every process
 			deadline := time.Now().Add(c9wait)
@@ -289,6 +304,9 @@ func c9sess(a []string) string {
 				if got == 0 && time.Since(last) > 3*time.Millisecond && subscribed() {
 					w.kick(sid, role)
 					last = time.Now()
+				}
+				if isReturned() {
+					return true
 				}
 				if time.Now().After(deadline) {
 					return false
